@@ -10,5 +10,6 @@ CONSTANTS
   QStarts = {0}
   QStops = {1}
   TimeCols = {"none"}
+  EWSAsFound = FALSE
 INVARIANTS TypeOK CursorPrefix CursorContract FullArrays
 CHECK_DEADLOCK FALSE
